@@ -133,16 +133,16 @@ ADDENDA = {
  "C01": " Oracle: the search as SimpleARTMAP drives it (its own reset function) against the specification scan, all eight modules.",
  "C20": " Added (axiom-free, VAT_prim.v): Prim's rule along the WHOLE returned order (every sample after the first is an unvisited sample closest to the samples before it - by induction over the loop with its prefix/permutation invariant), and symmetry / zero diagonal of the returned matrix for such input.",
  "C04": " Added: whole-call totality for two compound estimators, TopoART and DualVigilanceART over Fuzzy ART with alpha > 0 (two-winner search, both updates, pruning rounds with re-prediction; the category-to-cluster map is total by the map invariant). Oracle: every boundary value of every hyper-parameter that validate_params accepts must train and predict (found and repaired: tau=0, r_hat<=0, sigma_init<=0, L=inf, singular cov_init); audit probes.",
- "C05": " Added (axiom-free): the same invariant for the A side of SimpleARTMAP / ARTMAP - established by a one-epoch fit, preserved by every partial_fit, together with 'one stored target per A-side label' (SAM_book.v). Oracle: a label must be usable as an index (integer dtype).",
+ "C05": " Added (axiom-free): the same invariant for the A side of SimpleARTMAP / ARTMAP - established by a one-epoch fit, preserved by every partial_fit, together with 'one stored target per A-side label' (SAM_book.v). Oracle: a label must be usable as an index (integer dtype). Third audit: CVIART over DualVigilanceART (clusters = distinct map values), refused calls (NotImplementedError) must leave the book-keeping as it was, class labels that are not small integers arriving in the narrowest dtype of each batch (three defects repaired).",
  "C07": " Added (axiom-free): every training call of SimpleARTMAP, DualVigilanceART and TopoART leaves the wrapped module's vigilance as configured, for every kernel, mode, epsilon and reset function, through every exit path and pruning round (Wrap_rho.v).",
- "C06": " Added (axiom-free): the same batching theorems for SimpleARTMAP (whole state incl. the category-to-class map and the stored targets; first call and later calls; any partition into batches; fit = any batching on a fresh estimator) for ARTMAP (B side + A side on the batch's B labels) and for the DeepARTMAP / SMART layer chain (SAM_hist.v, Deep_hist.v).",
+ "C06": " Added (axiom-free): the same batching theorems for SimpleARTMAP (whole state incl. the category-to-class map and the stored targets; first call and later calls; any partition into batches; fit = any batching on a fresh estimator) for ARTMAP (B side + A side on the batch's B labels) and for the DeepARTMAP / SMART layer chain (SAM_hist.v, Deep_hist.v). classes_ is part of the compared state (a defect repaired: partial_fit never wrote it).",
  "C08": " Added (axiom-free, Wrap_pred.v): DualVigilanceART and SimpleARTMAP predict row by row, each row gets the map image of the base module's oldest arg-max category, and a DualVigilanceART prediction is < n_clusters. The purity snapshot compares the whole __dict__ (remembered widths included; CVIART.predict creating dim_ was a genuine defect, repaired).",
- "C10": " Added: the activation of a category is the gamma-weighted sum of the channel modules' own activations (Fusion_skip.v), and - the permutation clause at the level of one category - the fused activation depends only on the multiset of (channel activation, gamma) pairs and the fused vigilance test only on the multiset of per-channel verdicts (Fusion_perm.v; exact arithmetic). Oracles: binary rows as int64 / uint8 / float32, one-channel FusionART vs the bare module as A side of SimpleARTMAP with the channel parameters restored.",
- "C11": " Added: with channels withheld the activation IS the gamma-weighted sum of the remaining channels' own activations (Fusion_skip.v; a skipped channel contributes 0 since /repo ee23ec6), prepare/restore with skipped channels (Fusion_prep.v). Oracles: arbitrary fillers (NaN, out of range, not complement coded) in the skipped columns, step_pred with negative indices, non-dyadic gammas with all but one channel withheld (rounding), an ART1 channel withheld, channels of mixed dtypes.",
+ "C10": " Added: the activation of a category is the gamma-weighted sum of the channel modules' own activations (Fusion_skip.v), and - the permutation clause at the level of one category - the fused activation depends only on the multiset of (channel activation, gamma) pairs and the fused vigilance test only on the multiset of per-channel verdicts (Fusion_perm.v; exact arithmetic). Oracles: binary rows as int64 / uint8 / float32, one-channel FusionART vs the bare module as A side of SimpleARTMAP with the channel parameters restored. Added (axiom-free, Fusion_w.v): the W attribute in both directions - setter after getter and getter after setter are identities (the setter cuts every fused weight at the module weight lengths; repaired /repo 61f72ea). Oracles: est.W = est.W on trained mixed-module models, gamma given as int / float64 / float32 / float16 arrays.",
+ "C11": " Added: with channels withheld the activation IS the gamma-weighted sum of the remaining channels' own activations (Fusion_skip.v; a skipped channel contributes 0 since /repo ee23ec6), prepare/restore with skipped channels (Fusion_prep.v). Oracles: arbitrary fillers (NaN, out of range, not complement coded) in the skipped columns, step_pred with negative indices, non-dyadic gammas with all but one channel withheld (rounding), an ART1 channel withheld, channels of mixed dtypes. Added (Fusion_prep_inv.v): the other direction of 'mutually inverse' - prepare_data applied to what restore_data returns (one block per supplied channel, accepted since /repo 67c6f3c). Oracles: prepare(restore(.)) for every skip subset of 2-4 channels, raw data in int8 / int16 / uint8 / bool.",
  "C13": " Added: every base category obeys the base module's upper-vigilance bound after every whole fit call (Fuzzy, Hypersphere, Ellipsoid instances of the generic theorem in Wrap_bound.v); the map invariant after every whole fit / partial_fit call (DualVig_reach.v).",
  "C14": " Added: both winners passed a vigilance at least as large as the configured one under every mode that never lowers it (Topo_bound.v), with the pre-fix search kept as a refuted variant (C14_search_before_fix_refuted); re-labelling at a pruning round (Topo_labels.v).",
- "C18": " Added oracles: a wrong-width matrix at the FIRST call for the modules whose hyper-parameters fix the width (ART2A, BayesianART, GaussianART: three defects repaired), integer-dtype invalid batches.",
- "C19": " The protocol model now states validate-then-assign (a rejected set_params changes nothing: C19_rejected_call_changes_nothing; the old behaviour is kept as set_params_before_fix_refuted). Oracles: rejected calls leave all params and attributes unchanged, module-valued entries in the set_params(get_params) round trip, doubly nested names.",
+ "C18": " Added oracles: a wrong-width matrix at the FIRST call for the modules whose hyper-parameters fix the width (ART2A, BayesianART, GaussianART: three defects repaired), integer-dtype invalid batches. Added (Prep_whole.v): whole first calls - for any rectangular data set with non-constant columns the output lies in the unit cube, passes Fuzzy ART's validation after complement coding (double width) and is restored exactly; later data inside the remembered bounds likewise. Oracle: whole-number matrices stored as int8 / int16 / int32 / uint8 / bool (a defect repaired: normalize computed in the caller's dtype).",
+ "C19": " The protocol model now states validate-then-assign (a rejected set_params changes nothing: C19_rejected_call_changes_nothing; the old behaviour is kept as set_params_before_fix_refuted). Oracles: rejected calls leave all params and attributes unchanged, module-valued entries in the set_params(get_params) round trip, doubly nested names. Oracles: a sub-estimator replaced together with one of its parameters, rejected calls that also replace a module (two defects repaired).",
 }
 for _k, _v in ADDENDA.items():
     CHECKS[_k]["text"] += _v
